@@ -46,8 +46,9 @@ CONFIG = {
     "modelled": ["api.VerifyJwt", "api.VerifyRefreshJwt", "api.VerifyEmailJwt", "api.ParseClaimString/ParseClaimInt", "api.ParseJwt (on the abstraction)",
                  "api.CreateToken/CreateRefreshToken/CreateEmailToken (claims, expiry, signing key)", "api.GetJwt", "api.Refresh",
                  "api.loginRequiredProcess/loginRequiredPathProcess (through LoginRequiredJSON/LoginRequiredPathJSON)",
-                 "api.GetTokenInfo", "api.GetRefreshTokenInfo", "api.userInfoIsValidEmailUser (proved, not driven: its callers need a BBS)"],
+                 "api.GetTokenInfo", "api.GetRefreshTokenInfo", "api.userInfoIsValidEmailUser (through api.ChangeEmail, api.SetIDEmail and GetEmailTokenInfo on a private BBSHOME whose fixture grants PERM_SYSOP / PERM_ACCOUNTS / PERM_ACCTREG to three users)", "api.GetEmailTokenInfo"],
     "assumptions": [
+        "bbs.IsSysop of the requester is an input of the model (the harness asks the real function on its fixture); what ChangeEmail/SetIDEmail do after the gate (bbs.ChangeEmail, the allow/reject mail lists, ChangeUserLevel2) is not modelled — the oracle only reads the resulting PERM2_ID_EMAIL bit",
         "claimed partial: HMAC, base64url and JSON parsing are outside the model (uninterpreted oracle + the harness's own decoding)",
         "JSON numbers of magnitude >= 2^53 in exp/iat/nbf are outside the model (int(float64) and time.Unix are not portable there); such cases are counted and skipped",
         "the secrets are those in force after api.InitConfig(): `effective_secrets_pairwise_distinct` is a fact about api/00-config.go + api/config.go + every shipped ini file (and no ini entry); a deployment whose own ini file sets equal secrets loses the separation of kinds: theorem `equal_secrets_break_kinds`",
